@@ -116,7 +116,8 @@ fn speak_rules(rules: &'static std::thread::LocalKey<RefCell<SpeechRules>>, math
             if let Some(start) = speech_string.find("[[") {
                 match speech_string[start+2..].find("]]") {
                     None => bail!("Internal error: looking for '[[...]]' during navigation -- only found '[[' in '{}'", speech_string),
-                    Some(end) => speech_string = speech_string[start+2..start+2+end].to_string(),
+                    // a rule that re-matches the same node marks it twice ("[[[[...]]]]") -- don't leave the inner marker in the speech
+                    Some(end) => speech_string = speech_string[start+2..start+2+end].replace("[[", ""),
                 }
             } else {
                 bail!(NAV_NODE_SPEECH_NOT_FOUND);
